@@ -371,6 +371,35 @@ def run(c):
     outcome("descriptorExhaustion", "emfile", len(eresp) == 3, len(epan), probe=bool(epr), tasks=True,
             detail={"panics": epan[:2], "waiting_clients_answered": len(eresp), "burst": eb})
     c.extra["descriptor_exhaustion"] = eb
+    # 5c. a host endpoint that neither accepts nor refuses connections (SYNs dropped): the connection whose destination it is
+    #     waits, every OTHER client is served meanwhile
+    silent = "10.9.8.7:9099"
+    zsteps = [{"op": "set_key", "guid": proxylib.GUID, "key": proxylib.KEYHEX}] + probe("warm2") + \
+             [{"op": "silent_host", "addr": silent},
+              {"op": "connect", "conn": "tosilent", "attr": {"uid": 0, "admin": 1, "dip": "10.9.8.7", "dport": 9099}, "wait": False},
+              {"op": "send", "conn": "tosilent", "id": "", "method": "GET", "target": "/to/silent", "headers": [["Host", "h"]]},
+              {"op": "sleep", "ms": 300}]
+    for i in range(3):
+        zsteps += [{"op": "connect", "conn": "zo%d" % i, "attr": {"uid": 0, "admin": 1, "dip": "168.63.129.16", "dport": 80}, "wait": False},
+                   {"op": "request", "conn": "zo%d" % i, "id": "zo%d" % i, "method": "GET", "target": "/while/silent/%d" % i, "headers": [["Host", "h"]],
+                    "timeout_ms": 8000},
+                   {"op": "close", "conn": "zo%d" % i}]
+
+    def silent_run(attempt):
+        zev, _, _ = rig.run_rig({"steps": zsteps, "drain_ms": 200}, "c13_silent%d" % attempt, timeout=300)
+        sh_ = next((e for e in zev if e["e"] == "SilentHost"), {})
+        if not sh_.get("connect_stays_pending"):
+            raise util.ToolError("silent-host scenario did not set up (a connect to it does not stay pending): %s" % sh_)
+        zpan = [{"location": e["location"], "message": e["message"][:160]} for e in zev if e["e"] == "Panic"]
+        zok = [e for e in zev if e["e"] == "Response" and str(e.get("id", "")).startswith("zo") and e.get("status") == 200]
+        return sh_, zpan, zok
+    sh_, zpan, zok = silent_run(1)
+    if not zpan and len(zok) != 3:
+        c.extra["silent_host_first_attempt"] = {"other_clients_answered": len(zok)}
+        sh_, zpan, zok = silent_run(2)
+    outcome("silentHost", "silent", len(zok) == 3, len(zpan), probe=len(zok) == 3, tasks=True,
+            detail={"panics": zpan[:2], "other_clients_answered_while_a_connect_is_pending": len(zok), "setup": sh_})
+    c.extra["silent_host"] = {"other_clients_answered": len(zok), "setup": sh_}
     # 6. the telemetry event queue is full (the logger task has not drained it: it starts late and runs once a minute) and
     #    many handlers write events at once (Robust!LogEvent with evq = QCap): every request is still answered
     seq_n, par_b, par_n = 1100, 16, 300 if not thorough else 1500
